@@ -279,7 +279,13 @@ func runHist(c caseT) (r resT) {
 			r.add(false, sigState(call, "result_aliases_schema"), detail(map[string]any{"before": clip(now.Defaults), "after": clip(after.Defaults)}))
 			prev = after
 		}
-		r.Keys = append(r.Keys, fmt.Sprintf("%s/%s/%s/%s/%s", c.CKind, c.Origin, call.Op, call.Tok, keysOf(used)[0][:min(12, len(keysOf(used)[0]))]))
+		if len(used) == 1 && len(freshOut) == 1 {
+			// (schema as built, argument) -> outcome: the orchestrator requires one outcome per key over ALL
+			// histories and processes of the run
+			k := keysOf(used)[0]
+			r.Keys = append(r.Keys, fmt.Sprintf("%s/%s/%s/%s/%d.%d.%d.%d|%s", c.CKind, c.Origin, call.Op, call.Tok,
+				call.m().N, call.m().T, call.m().Sa, call.m().Sb, clip(k)))
+		}
 	}
 	return r
 }
@@ -375,9 +381,22 @@ func runRandom(c caseT) (r resT) {
 				r.HarnessErr = fmt.Sprintf("%s/%s %s %s: %s", ck, origin, op, tok, o.FlatErr)
 				return r
 			}
+			// the same call again on this instance and on a fresh one: one outcome everywhere?
+			ct := callT{Op: op, Tok: tok, M: &m}
+			used, _ := evalN(in, ct, 6, &r)
+			used[o.key()] = o
+			fresh, err := build(ck, origin)
+			if err != nil {
+				r.HarnessErr = err.Error()
+				return r
+			}
+			freshOut, _ := evalN(fresh, ct, 6, &r)
+			nondet := len(used) > 1 || len(freshOut) > 1
+			freshSame := nondet || keysOf(used)[0] == keysOf(freshOut)[0]
 			now := in.snap()
 			line := map[string]any{"ev": "call", "kind": in.kind, "origin": origin, "ckind": ck, "op": op, "tok": tok,
 				"m": m, "ok": o.Ok, "rm": o.M, "rn": o.N, "panic": o.Panic != nil,
+				"nondet": nondet, "freshsame": freshSame,
 				"argsame": o.ArgSame, "descsame": now.Err == "" && now.Descr == base.Descr,
 				"defsame": now.Err == "" && now.Defaults == base.Defaults,
 				"dhas":    now.Has, "droot": now.Root, "dinner": now.Inner}
@@ -396,7 +415,7 @@ func runBind() (r resT) {
 	fail := func(f string, a ...any) { r.BindError += fmt.Sprintf(f, a...) + "; " }
 	// smallest multipliers of the package-level definitions (documented constants)
 	want := map[string]int64{"int_bytes": 1024, "int_nanos": 1000, "int_seconds": 60, "int_chars": 1, "int_pct": 1,
-		"int_custom": 1000, "int_custom0": 1}
+		"int_custom": 1000, "int_custom2": 100, "int_custom0": 1}
 	for ck, mult := range want {
 		in, err := build(ck, ckinds[ck].origins[0])
 		if err != nil {
@@ -687,6 +706,7 @@ func raceTrials(c caseT, out *oneshotOut) {
 					}
 					out.Trace = append(out.Trace, map[string]any{"ev": "call", "kind": in.kind, "origin": c.Origin, "ckind": c.CKind,
 						"op": op.Op, "tok": op.Tok, "m": op.m(), "ok": o.Ok, "rm": o.M, "rn": o.N, "panic": o.Panic != nil,
+						"nondet": false, "freshsame": true,
 						"argsame": o.ArgSame, "descsame": true, "defsame": true, "dhas": false, "droot": emptyFlat, "dinner": emptyFlat})
 				}
 			}
